@@ -915,8 +915,26 @@ func runAPI(cfg *config, prop string) *Report {
 			reqs = append(reqs, &apiReq{Kind: "get", ID: b}, &apiReq{Kind: "val", ID: a}, &apiReq{Kind: "cont", ID: b})
 			directed = append([]directedHist{{false, reqs}}, directed...)
 		}
-		if cfg.tier != "thorough" && len(directed) > 10 {
-			directed = directed[:10]
+		// a well-filled store: thirty files created one after the other (the server draws the IDs), the last one read,
+		// the list fetched, the last one read again (limits and paging of the list must not touch what is stored)
+		if len(pools.jsonDocs) > 0 {
+			big := 0
+			for k := range pools.jsonDocs {
+				if len(pools.jsonDocs[k]) > len(pools.jsonDocs[big]) {
+					big = k
+				}
+			}
+			var reqs []*apiReq
+			for i := 0; i < 30; i++ {
+				reqs = append(reqs, &apiReq{Kind: "c2", Body: pools.jsonDocs[(big+i)%len(pools.jsonDocs)], CT: "application/json", Src: "clean"})
+			}
+			reqs = append(reqs, &apiReq{Kind: "c2", Body: pools.jsonDocs[big], CT: "application/json", Src: "clean"},
+				&apiReq{Kind: "get", ID: "@last"}, &apiReq{Kind: "cont", ID: "@last"}, &apiReq{Kind: "list"}, &apiReq{Kind: "get", ID: "@last"},
+				&apiReq{Kind: "cont", ID: "@last"}, &apiReq{Kind: "list"}, &apiReq{Kind: "val", ID: "@last"}, &apiReq{Kind: "get", ID: "@last"})
+			directed = append([]directedHist{{false, reqs}}, directed...)
+		}
+		if cfg.tier != "thorough" && len(directed) > 11 {
+			directed = directed[:11]
 		}
 		nHist += len(directed)
 	}
